@@ -1411,3 +1411,46 @@ def run_errprop(ctx):
     reach = set(cg.reachable(ENTRY))
     r_codec.errprop_rule(ctx, lambda f: f.path in reach and f.krate == "vibrato", "builder",
                          cfgs=("A",), floor=40)
+
+
+def fieldwidth(ctx):
+    """FIELDWIDTH (C01, C02, C04, C12, C13, C10): a field of vibrato's own types that carries a
+    position, a length, a count or a cost does not become *narrower* than in the confirmed tree
+    (spec/field_types.json) when the new width is 16 bits or less. Positions in a sentence and
+    run lengths are bounded only by the input (a sentence of 70000 characters is ordinary
+    input), so a `usize` -> `u16` field silently wraps or saturates: the stored back-pointer,
+    start position or run length then names another place. (Fields that are 16 bits wide in the
+    confirmed tree - connection ids, category ids, costs - are the dictionary format's own
+    limits and are checked by the builders.) Removing or renaming a field is not judged."""
+    import json as _json
+    import re as _re
+    with open(os.path.join(VERIF, "spec", "field_types.json")) as fh:
+        base = _json.load(fh)["fields"]
+    INT = r"\b(u8|u16|u32|u64|usize|i8|i16|i32|i64|isize)\b"
+    n = 0
+    for cfg in ("A", "B"):
+        crate = ctx.facts(cfg).lib
+        for key, oldty in sorted(base.items()):
+            adt, fld = key.rsplit(".", 1)
+            a = crate.adts.get(adt)
+            if a is None:
+                continue
+            cur = [f for v in a["variants"] for f in v["fields"] if f["name"] == fld]
+            if not cur:
+                continue
+            newty = cur[0]["ty"]
+            o, m = _re.findall(INT, oldty), _re.findall(INT, newty)
+            if not o or not m:
+                continue
+            ob_, nb_ = INT_BITS[o[0]], INT_BITS[m[0]]
+            if cfg == "A":
+                n += 1
+            ok = not (nb_ < ob_ and nb_ <= 16)
+            if cfg == "B" and ok:
+                continue
+            ctx.ob("FIELDWIDTH", "%s|%s" % (cfg, key), ok, "%s:%s" % (a["sp"]["file"], a["sp"]["line"]),
+                   "%s keeps its width (%s)" % (key.split("::")[-1], newty) if ok else
+                   "field %s was narrowed from %s to %s: positions, lengths and counts are bounded only "
+                   "by the input, values above %d wrap or saturate and then name another position, "
+                   "node or run" % (key.split("::", 1)[-1], oldty, newty, (1 << nb_) - 1))
+    ctx.floor("FIELDWIDTH", "integer-carrying fields compared", n, 40)
